@@ -207,6 +207,19 @@ func run(c Case) (vstat.Outcome, error) {
 		return out, diffErr("list grown while the history was produced vs list fed afterwards", d, dig[nrec-1])
 	}
 
+	// the state is a function of the record sequence, not of who looks: every account's own
+	// list (grown while the history was produced) shows the same members, permissions, invites,
+	// pending requests and key ids as the observer's
+	pub := aclgen.PublicDigest(a.l)
+	for i, l := range w.Lists {
+		if w.Stuck[i] {
+			continue
+		}
+		if d := aclgen.PublicDigest(l); d != pub {
+			return out, diffErr(fmt.Sprintf("observer-independent state differs between account %d's list and observer %d's list", i, obs), d, pub)
+		}
+	}
+
 	// ---- path 3: client verifier with keep-only-ours partial decode ----
 	cl, err := newMem(vClient, 0)
 	if err != nil {
